@@ -202,7 +202,11 @@ func (r *c17Route) wd() *bgp.BGPMessage {
 }
 
 // c17Rtm builds an RT-membership UPDATE. rt == nil and as == 0: the default membership.
-func c17Rtm(from *c17Peer, as uint32, rt bgp.ExtendedCommunityInterface, withdraw bool) *bgp.BGPMessage {
+func c17Rtm(from *c17Peer, as uint32, rt bgp.ExtendedCommunityInterface, withdraw bool, lps ...uint32) *bgp.BGPMessage {
+	lp := uint32(100)
+	if len(lps) > 0 {
+		lp = lps[0]
+	}
 	n := bgp.NewRouteTargetMembershipNLRI(as, rt)
 	if withdraw {
 		un, _ := bgp.NewPathAttributeMpUnreachNLRI(bgp.RF_RTC_UC, []bgp.PathNLRI{{NLRI: n}})
@@ -213,7 +217,7 @@ func c17Rtm(from *c17Peer, as uint32, rt bgp.ExtendedCommunityInterface, withdra
 		attrs = append(attrs, bgp.NewPathAttributeAsPath([]bgp.AsPathParamInterface{bgp.NewAs4PathParam(2, []uint32{from.spec.as})}))
 	} else {
 		attrs = append(attrs, bgp.NewPathAttributeAsPath([]bgp.AsPathParamInterface{}))
-		attrs = append(attrs, bgp.NewPathAttributeLocalPref(100))
+		attrs = append(attrs, bgp.NewPathAttributeLocalPref(lp))
 	}
 	mp, _ := bgp.NewPathAttributeMpReachNLRI(bgp.RF_RTC_UC, []bgp.PathNLRI{{NLRI: n}}, from.spec.addr)
 	attrs = append(attrs, mp)
@@ -315,9 +319,24 @@ func c17NewWorld(t testing.TB, o *vOut) *c17World {
 		{id: 2, name: "blue", rd: 2, imp: []bgp.ExtendedCommunityInterface{Y, Z, c17EC(1, 1, true)}, exp: []bgp.ExtendedCommunityInterface{Y, c17EC(2, 1, true)}},
 	}
 	o.op("reset")
-	for _, v := range cw.vrfs {
+	for i, v := range cw.vrfs {
 		if err := c17AddVrf(w, v.name, v.rd, v.imp, v.exp); err != nil {
 			t.Fatal(err)
+		}
+		// the VRF as the server holds it (the API conversion of route targets keeps value and
+		// format but not a cleared transitive bit); import order is irrelevant, keep ours
+		if rv, ok := w.s.globalRib.GetVrf(v.name); ok {
+			for j, e := range v.imp {
+				for _, a := range rv.ImportRt.ToSlice() {
+					if a.String() == e.String() {
+						if _, _, x := c17Octets(a); x&^(1<<62) == c17ECNum(e)&^(1<<62) {
+							v.imp[j] = a
+						}
+					}
+				}
+			}
+			v.exp = append([]bgp.ExtendedCommunityInterface{}, rv.ExportRt...)
+			cw.vrfs[i] = v
 		}
 		o.ask("ok", "vrf %d %d 0 %s %s", v.id, v.rd, c17ECList(v.imp), c17ECList(v.exp))
 	}
@@ -520,7 +539,36 @@ func c17ViewStr[K comparable](m map[K]int) string {
 	return strings.Join(l, ",")
 }
 
+// checkLocalRtm: the RT memberships this speaker originates == import targets of the configured VRFs
+func (cw *c17World) checkLocalRtm(after string, hist *[]string) {
+	want := map[uint64]bool{}
+	for _, v := range cw.vrfs {
+		for _, e := range v.imp {
+			want[c17ECNum(e)] = true
+		}
+	}
+	if cw.green {
+		want[c17ECNum(c17EC(0, 1, true))] = true
+		want[c17ECNum(c17EC(0, 4, true))] = true
+	}
+	have := map[uint64]bool{}
+	for _, p := range cw.w.s.globalRib.GetPathList(table.GLOBAL_RIB_NAME, 0, []bgp.Family{bgp.RF_RTC_UC}) {
+		if p.IsLocal() {
+			k, _ := p.GetNlri().(*bgp.RouteTargetMembershipNLRI).RouteTargetKey()
+			have[k] = true
+		}
+	}
+	if fmt.Sprint(want) != fmt.Sprint(have) {
+		cls := "vrf-local-membership"
+		if after == "delvrf green" {
+			cls = "vrf-delete-local-membership-not-withdrawn"
+		}
+		cw.o.fail(cls, map[string]any{"after": after, "locally-originated": fmt.Sprint(have), "import-targets-of-the-vrfs": fmt.Sprint(want), "history": append([]string{}, *hist...)})
+	}
+}
+
 func (cw *c17World) checkViews(after string, hist *[]string) {
+	cw.checkLocalRtm(after, hist)
 	bests := cw.w.s.globalRib.GetBestPathList(table.GLOBAL_RIB_NAME, 0, []bgp.Family{bgp.RF_IPv4_VPN})
 	for i, p := range cw.obs {
 		if !p.up {
@@ -646,13 +694,15 @@ func (cw *c17World) do(ev c17Ev, hist *[]string) {
 			cw.memOn[ev.peer][k] = true
 		}
 		after := cw.interestedKey(ev.peer, key)
-		desc = fmt.Sprintf("mem obs=%d rt=%d as=%d wd=%v", ev.peer, key, ev.as, ev.memWd)
+		desc = fmt.Sprintf("mem obs=%d rt=%d as=%d wd=%v lp=%d", ev.peer, key, ev.as, ev.memWd, []uint32{100, 200, 200, 50}[ev.lpr%4])
 		*hist = append(*hist, desc)
 		held := map[string]int{}
 		for k, v := range cw.obsView[ev.peer] {
 			held[k] = v
 		}
-		w.recv(ob.vwPeer, c17Rtm(ob, ev.as, ev.rt, ev.memWd))
+		// the membership may be preferred over (200), tie with (100) or lose against (50) the one this
+		// speaker originates for the same target
+		w.recv(ob.vwPeer, c17Rtm(ob, ev.as, ev.rt, ev.memWd, []uint32{100, 200, 200, 50}[ev.lpr%4]))
 		if ev.memWd {
 			o.stat("mem_withdraw", 1)
 		} else {
@@ -787,7 +837,7 @@ func (cw *c17World) do(ev c17Ev, hist *[]string) {
 		cw.green = true
 		desc = "addvrf green"
 		*hist = append(*hist, desc)
-		if err := c17AddVrf(w, "green", 3, []bgp.ExtendedCommunityInterface{c17EC(0, 1, true), c17EC(0, 3, true)}, nil); err != nil {
+		if err := c17AddVrf(w, "green", 3, []bgp.ExtendedCommunityInterface{c17EC(0, 1, true), c17EC(0, 4, true)}, nil); err != nil {
 			o.fail("vrf-add", err.Error())
 		}
 		o.stat("vrf_add", 1)
@@ -859,7 +909,8 @@ func init() {
 	for v := 1; v <= 3; v++ {
 		c17SrvPool = append(c17SrvPool, c17EC(0, v, true))
 	}
-	c17SrvPool = append(c17SrvPool, c17EC(1, 1, true), c17EC(2, 1, true), c17EC(0, 1, false), c17EC(0, 12, false), c17EC(3, 1, true), c17EC(4, 1, true), c17EC(5, 7, true))
+	// 65000:4 is imported by the VRF that comes and goes ("green") only
+	c17SrvPool = append(c17SrvPool, c17EC(0, 4, true), c17EC(1, 1, true), c17EC(2, 1, true), c17EC(0, 1, false), c17EC(0, 12, false), c17EC(3, 1, true), c17EC(4, 1, true), c17EC(5, 7, true))
 }
 
 func c17GenECs(r *vRand) []bgp.ExtendedCommunityInterface {
@@ -900,14 +951,14 @@ func c17GenEv(r *vRand, cw *c17World) c17Ev {
 		fmt.Sscanf(keys[r.intn(len(keys))], "%d/%d/%d/%d", &ev.peer, &ev.pid, &ev.rd, &ev.pfx)
 		return ev
 	case x < 85:
-		ev := c17Ev{kind: "mem", peer: r.intn(2), as: uint32(r.pick(65000, 65000, 65001)), memWd: r.chance(45)}
+		ev := c17Ev{kind: "mem", peer: r.intn(2), as: uint32(r.pick(65000, 65000, 65001)), memWd: r.chance(45), lpr: r.intn(4)}
 		switch y := r.intn(10); {
 		case y == 0:
 			ev.rt, ev.as = nil, 0
 		case y == 1:
 			ev.rt = c17SrvPool[r.intn(len(c17SrvPool))]
 		default:
-			ev.rt = c17SrvPool[r.intn(3)]
+			ev.rt = c17SrvPool[r.intn(4)]
 		}
 		return ev
 	case x < 90:
@@ -981,6 +1032,16 @@ func c17CorpusSrv(t testing.TB, o *vOut) {
 			{kind: "mem", peer: 0, rt: X, as: 65002, memWd: true},
 		},
 	}
+	W := c17EC(0, 4, true)
+	cases = append(cases,
+		[]c17Ev{ // the local membership of a deleted VRF is withdrawn also when a neighbour's is preferred
+			{kind: "addvrf"}, {kind: "mem", peer: 0, rt: W, as: 65000, lpr: 1}, {kind: "delvrf"},
+			{kind: "mem", peer: 0, rt: W, as: 65000, lpr: 1, memWd: true},
+		},
+		[]c17Ev{ // ... or less preferred, or when two neighbours announce it
+			{kind: "mem", peer: 0, rt: W, as: 65000, lpr: 3}, {kind: "mem", peer: 1, rt: W, as: 65000, lpr: 1},
+			{kind: "addvrf"}, {kind: "delvrf"}, {kind: "addvrf"}, {kind: "mem", peer: 1, rt: W, as: 65000, lpr: 1, memWd: true}, {kind: "delvrf"},
+		})
 	for _, c := range cases {
 		cw := c17NewWorld(t, o)
 		hist := []string{}
